@@ -77,6 +77,9 @@ def _translate(k):
     if k in SENT:
         from harness import cxx2sent
         return cxx2sent.translate(str(C.REPO), k), {"scalars": [], "arrays": []}
+    if k == "static_permutation":
+        from harness import cxx2tmpl
+        return cxx2tmpl.translate(str(C.REPO)), {"scalars": [], "arrays": []}
     if k in ("context", "morton_pdep"):
         from harness import cxx2ctx
         return cxx2ctx.translate(str(C.REPO), k), {"scalars": [], "arrays": []}
@@ -102,6 +105,8 @@ def _where(k):
     if k in SENT:
         from harness import cxx2sent
         return cxx2sent.SENTENCES[k][0] + " " + k + " (model clause: " + cxx2sent.SENTENCES[k][3] + ")"
+    if k == "static_permutation":
+        return "utility/static_permutation.hpp: every template specialisation"
     if k == "context":
         return "array.hpp / algebra/matrix.hpp / algebra/vector.hpp / utility/nd_size.hpp element accessors"
     if k == "morton_pdep":
